@@ -146,7 +146,7 @@ def run(ctx):
                         "both streams", "the peer respects the window it was granted (C19 for a paramiko peer)"]
     ctx.prove(gens=GENS)
     c19.check_constants(ctx)
-    scale = 6 if ctx.thorough else 1
+    scale = 4 if ctx.thorough else 1
 
     def after(pair, case):
         check_settled(ctx, pair, case)
